@@ -65,6 +65,16 @@ impl Exec for AnonymousFunction {
     fn exec(&self, interpreter: &mut Interpreter) -> ExecResult {
         let mut fn_local_variables = LocalVariables::from_params(self.params.clone(), interpreter);
         let body = recreate_instructions(&self.body, &mut fn_local_variables)?;
+        #[cfg(feature = "verif")]
+        {
+            let function = Function {
+                ident: None,
+                params: self.params.clone(),
+                body: Body::Lang(body.clone()),
+                return_type: self.return_type.clone(),
+            };
+            crate::verif::function_created(&function);
+        }
         Ok(Function {
             ident: None,
             params: self.params.clone(),
